@@ -1,6 +1,10 @@
 TRUST = ("trusted: the pyvc VC generator and its Python-subset semantics (ints mathematical, floats as reals), z3/cvc5, the "
          "library contracts listed in the evidence's trusted_base, the domain assumptions on samplers/datasets named in the contracts")
 CHECKS = {
+    "C03": dict(level="proof", technique="contract-based deductive verification of the wrapper constructors over integer-sequence terms (AST->SMT; numpy/torch index-array contracts), termination by loop variant, bounded real wrappers",
+                text="PercentFilter / SubsetWrapper / RepeatWrapper / ShuffleWrapper constructors establish exactly the promised index sequence (contiguous ranges with None-only defaults, whole round-robin copies "
+                     "reaching min_size, a permutation keyed by the seed); OversamplingWrapper(exact) terminates for every class layout; the remaining five wrappers and the balance clauses are bounded only",
+                note=TRUST + "; numpy arange/tile/ceil/shuffle contracts; percent products on reals; KDSubset constructibility as frame obligation"),
     "C04": dict(level="proof", technique="contract-based deductive verification (own AST->SMT VC generator, z3+cvc5), refinement of a ghost spec automaton by loop invariants",
                 text="every obligation generated from the real InterleavedSampler.__init__/__iter__/_training_loop and _InterleavedBatchSampler.__iter__ "
                      "(yield-site assertions = the property statement over ghost spec counters, loop invariants, variants for termination, internal asserts) "
